@@ -36,7 +36,9 @@ class Boom(Exception):
 
 
 class MprocBoom(Exception):
-    pass
+    def __init__(self, cid):
+        Exception.__init__(self, "model processor of load %r" % cid)
+        self.cid = cid
 
 
 class Run:
@@ -199,7 +201,11 @@ def run_load(run, lid):
         finally:
             run.ctx_stack.pop()
             run.main_names.pop()
-    except MprocBoom:
+    except MprocBoom as e:
+        if e.cid != cid:
+            # raised by a load that a callback of this load had started: this load fails
+            run.ev("F", cid)
+            raise Boom("model processor of an inner load") from None
         run.ev("E", cid)
         raise
     except BaseException:
@@ -286,7 +292,7 @@ def make_mm(run, sc):
         for it in model.items:
             if run.sc["behav"].get("mproc:%s" % it.name) == "boom":
                 if run.main_names and os.path.basename(model._tx_filename) == run.main_names[-1]:
-                    raise MprocBoom()       # after the load proper has finished
+                    raise MprocBoom(run.cur())       # after the load proper has finished
                 raise Boom("model processor of an imported model")
 
     mm.register_model_processor(mproc)
